@@ -481,7 +481,7 @@ pub fn run(ctx: &Ctx) -> Report {
     }
     Report {
         stats: total,
-        rule: format!("formats reach the parser as -printf '<s>'; exhaustive over all strings of length 1..={max_len} on a 17-symbol alphabet, all documented elements alone/embedded/pairwise, random strings (<=60 chars) from a directive-biased grammar. Oracle: independent linear scanner (directive table, escape table, octal escape of exactly three digits with the 1-2 digit reading of find(1) also accepted, lone backslash stands for itself, maximal literals) -> the returned element list must equal an acceptable segmentation, or Err for an undocumented '%' directive; plus invariants: no empty literal, no adjacent literals. Non-trivial: accepted string with at least one directive/escape element, or rejected string with valid text before the bad directive. Distinct: by string."),
+        rule: format!("formats reach the parser as -printf '<s>'; exhaustive over all strings of length 1..={max_len} on a 17-symbol alphabet, all documented elements alone/embedded/pairwise, random strings (<=60 chars) from a directive-biased grammar. Oracle: independent linear scanner (directive table, escape table, octal escape of exactly three digits with the 1-2 digit reading of find(1) also accepted, lone backslash stands for itself, maximal literals) -> the returned element list must equal an acceptable segmentation, or Err for an undocumented '%' directive; plus invariants: no empty literal, no adjacent literals. Also literal runs of 255..131072 bytes around the elements and %{{xattr:NAME}} with names of 1..65537 letters (every length around the powers of two). Non-trivial: accepted string with at least one directive/escape element, or rejected string with valid text before the bad directive. Distinct: by string."),
         assumptions: vec![
             "%{xattr:NAME}: only letter NAMEs are asserted (NAME's alphabet is undocumented)".into(),
             "one/two-digit octal escapes: both the ast.rs reading (\\NNN only) and the find(1) reading (1-3 digits) are accepted".into(),
